@@ -25,6 +25,11 @@ def observation(meta, full=True, attrs=None):
         out.append('keys %d' % i)
         out.append('effects %d' % i)
         out.append('item %d' % i)
+        cls = (meta.get('classes') or {}).get(i)
+        if cls == 'booster':
+            out.append('sideeffects %d' % i)
+        elif cls == 'fighter':
+            out.append('abilities %d' % i)
     return out
 
 
